@@ -85,14 +85,42 @@ Theorem flat_local_follows :
 Proof. exact C18Proofs.flat_local_follows_lemma. Qed.
 Print Assumptions flat_local_follows.
 
-(* FALSE without [never_held]: on a busy target the flat pipe tests the
-   target's CURRENT state, not the state its queue will produce *)
-Theorem flat_busy_refuted :
+(* ... and on EVERY schedule - target held by slow transitions or by third
+   parties, source calls queued behind them - as long as the target machine
+   did not drop one of the pipe's calls ([c_lossy]: Remove's early return
+   during the negotiation of the Add of the same state / the duplicate skip
+   across an opposite mutation).  This is what the idle test of /repo commit
+   7687e3a buys: before it the statement was false without any drop
+   (corpus flat_busy_skip*.json) *)
+Theorem flat_follows_unless_dropped :
+  forall (c : pcfg) (steps : list step),
+    p_flat c = true -> p_addonly c = false ->
+    steps_wf c steps = true ->
+    let r := run c steps in
+    c_lossy r = (false, false) ->
+    quiescent r = true ->
+    follows (p_n c) (c_src r) (t_ticks (c_tgt r)) = true.
+Proof. exact C18Proofs.flat_follows_unless_dropped_lemma. Qed.
+Print Assumptions flat_follows_unless_dropped.
+
+(* FALSE without the [c_lossy] hypothesis, both ways (defects of the target
+   MACHINE, not of the pipe): Remove dropped by the early return ... *)
+Theorem flat_busy_early_refuted :
   exists (c : pcfg) (steps : list step),
     p_flat c = true /\ p_addonly c = false /\ steps_wf c steps = true /\
+    c_lossy (run c steps) = (true, false) /\
     ends_differing c steps false true.
-Proof. exact C18Proofs.flat_busy_refuted_lemma. Qed.
-Print Assumptions flat_busy_refuted.
+Proof. exact C18Proofs.flat_busy_early_refuted_lemma. Qed.
+Print Assumptions flat_busy_early_refuted.
+
+(* ... Add dropped as a duplicate (flat pipes never pass args) *)
+Theorem flat_busy_dedup_refuted :
+  exists (c : pcfg) (steps : list step),
+    p_flat c = true /\ p_addonly c = false /\ steps_wf c steps = true /\
+    c_lossy (run c steps) = (false, true) /\
+    ends_differing c steps true false.
+Proof. exact C18Proofs.flat_busy_dedup_refuted_lemma. Qed.
+Print Assumptions flat_busy_dedup_refuted.
 
 (* ---------------------------------------------------------------- non-flat *)
 
@@ -138,6 +166,21 @@ Theorem nonflat_follows_per_state_order :
 Proof. exact C18Proofs.nonflat_follows_per_state_order_lemma. Qed.
 Print Assumptions nonflat_follows_per_state_order.
 
+(* ... and on EVERY schedule, held targets included: the only ways to end
+   differing are an overtaking within one state ([c_reord]) and the two drops
+   by the target machine ([c_lossy]) *)
+Theorem nonflat_follows_unless_dropped :
+  forall (c : pcfg) (steps : list step),
+    p_flat c = false -> p_addonly c = false ->
+    steps_wf c steps = true ->
+    let r := run c steps in
+    c_reord r = false ->
+    c_lossy r = (false, false) ->
+    quiescent r = true ->
+    follows (p_n c) (c_src r) (t_ticks (c_tgt r)) = true.
+Proof. exact C18Proofs.nonflat_follows_unless_dropped_lemma. Qed.
+Print Assumptions nonflat_follows_unless_dropped.
+
 (* ... and oldest-first delivery alone is NOT enough: while the target's Add
    transition is still in its negotiation phase, EvRemove sees an empty
    queue, a transition in progress and an inactive state, and returns
@@ -173,25 +216,12 @@ Print Assumptions sync_restores.
 
 (* ---------------------------------------------------------------- BindAny *)
 
-(* FALSE: forall n ops, sets_equal (fst (any_run n ops)) (snd (any_run n ops)) = true.
-   `target.Is(states)` is a superset test: deactivations never propagate *)
-Theorem bindany_equal_sets_refuted :
-  exists (n : nat) (ops : list aop),
-    sets_equal (fst (any_run n ops)) (snd (any_run n ops)) = false.
-Proof. exact C18Proofs.bindany_equal_sets_refuted_lemma. Qed.
-Print Assumptions bindany_equal_sets_refuted.
-
-(* what does hold for every history: the target's set contains the source's *)
-Theorem bindany_superset :
+(* for EVERY history of Add / Remove / Set mutations on the source (idle
+   target) the target's active set equals the source's.  True since /repo
+   commit fbc0e47 (the skip test compares the sets, not `target.Is(states)`);
+   before, deactivations never propagated (corpus bindany_*.json) *)
+Theorem bindany_equal_sets :
   forall (n : nat) (ops : list aop),
-    subset_b (fst (any_run n ops)) (snd (any_run n ops)) = true.
-Proof. exact C18Proofs.bindany_superset_lemma. Qed.
-Print Assumptions bindany_superset.
-
-(* ... and equality for histories of Add mutations only *)
-Theorem bindany_adds_only_equal :
-  forall (n : nat) (ops : list aop),
-    adds_only ops = true ->
     sets_equal (fst (any_run n ops)) (snd (any_run n ops)) = true.
-Proof. exact C18Proofs.bindany_adds_only_equal_lemma. Qed.
-Print Assumptions bindany_adds_only_equal.
+Proof. exact C18Proofs.bindany_equal_sets_lemma. Qed.
+Print Assumptions bindany_equal_sets.
